@@ -51,6 +51,20 @@ def signature(pr, plan):
                     return "undefined-fluent-read-only-in-a-subexpression-that-simplifies-away"
     except Exception:  # noqa
         pass
+    # two unconditional assignments of one action whose targets are different lifted expressions but the SAME ground fluent for the actual parameters
+    # (m(x0) := m(x1) and m(o0) := n in a1(o0, o0)): the sequential simulator rejects the ground action statically (known C01/C03 finding), the
+    # time-triggered validator compares the values in the state
+    try:
+        em = pr.environment.expression_manager
+        for a, ps in plan:
+            subs = dict(zip([em.ParameterExp(p_) for p_ in a.parameters], [em.ObjectExp(o) for o in ps]))
+            tg = [(e.fluent, e.fluent.substitute(subs), e.value.substitute(subs)) for e in a.effects if e.is_assignment()]
+            for i_ in range(len(tg)):
+                for j_ in range(i_ + 1, len(tg)):
+                    if tg[i_][0] is not tg[j_][0] and tg[i_][1] is tg[j_][1] and tg[i_][2] is not tg[j_][2]:
+                        return "two-assignments-reach-one-ground-fluent-through-parameter-aliasing"
+    except Exception:  # noqa
+        pass
     for a, ps in plan:
         for e in a.effects:
             t = e.fluent.fluent().type
